@@ -16,6 +16,7 @@ struct Access {
     static bool fgs(const GMGPolar& s) { return s.full_grid_smoothing_; }
     static const std::vector<double>& norms(const GMGPolar& s) { return s.residual_norms_; }
     static size_t nerrors(const GMGPolar& s) { return s.exact_errors_.size(); }
+    static bool converged(GMGPolar& s, double rn, double reln) { return s.converged(rn, reln); }
 };
 } // namespace gmgpolar_verif
 using gmgpolar_verif::Access;
@@ -26,49 +27,7 @@ static void record(const char* op, int level, std::initializer_list<const void*>
     g_trace.push_back(Event{op, level, std::vector<const void*>(b), std::vector<double>(s)});
 }
 
-struct Config {
-    int nr_exp = 3, ntheta_exp = 3, maxLevels = -1;
-    int cycle = 0, extrap = 0, pre = 1, post = 1, fmg = 0, fmg_cycle = 0, fmg_iters = 1;
-    int maxit = 3; bool tol = true; double atol = 1e-10, rtol = 1e-8; int norm = 0;
-    bool exact = true, dirbc = false, take = false; int problem = 0; int threads = 2; int divide = 0;
-};
-
-static std::unique_ptr<GMGPolar> make_solver(const Config& c) {
-    const double Rmax = 1.3, kap = 0.3, del = 0.2, eps = 0.3, e = 1.4, aj = 0.66 * Rmax;
-    std::unique_ptr<DomainGeometry> g; std::unique_ptr<DensityProfileCoefficients> p;
-    std::unique_ptr<BoundaryConditions> b; std::unique_ptr<SourceTerm> s; std::unique_ptr<ExactSolution> x;
-    switch (c.problem % 3) {
-    case 0:
-        g = std::make_unique<CircularGeometry>(Rmax); p = std::make_unique<PoissonCoefficients>(Rmax, aj);
-        b = std::make_unique<CartesianR2_Boundary_CircularGeometry>(Rmax); s = std::make_unique<CartesianR2_Poisson_CircularGeometry>(Rmax);
-        x = std::make_unique<CartesianR2_CircularGeometry>(Rmax); break;
-    case 1:
-        g = std::make_unique<ShafranovGeometry>(Rmax, kap, del); p = std::make_unique<ZoniGyroCoefficients>(Rmax, aj);
-        b = std::make_unique<PolarR6_Boundary_ShafranovGeometry>(Rmax, kap, del); s = std::make_unique<PolarR6_ZoniGyro_ShafranovGeometry>(Rmax, kap, del);
-        x = std::make_unique<PolarR6_ShafranovGeometry>(Rmax, kap, del); break;
-    default:
-        g = std::make_unique<CzarnyGeometry>(Rmax, eps, e); p = std::make_unique<SonnendruckerGyroCoefficients>(Rmax, aj);
-        b = std::make_unique<CartesianR2_Boundary_CzarnyGeometry>(Rmax, eps, e); s = std::make_unique<CartesianR2_SonnendruckerGyro_CzarnyGeometry>(Rmax, eps, e);
-        x = std::make_unique<CartesianR2_CzarnyGeometry>(Rmax, eps, e); break;
-    }
-    auto solver = std::make_unique<GMGPolar>(std::move(g), std::move(p), std::move(b), std::move(s));
-    if (c.exact) solver->setSolution(std::move(x));
-    return solver;
-}
-
-static void apply_options(GMGPolar& s, const Config& c) {
-    s.verbose(0); s.paraview(false);
-    s.maxOpenMPThreads(c.threads); s.threadReductionFactor(1.0);
-    s.stencilDistributionMethod(c.take ? StencilDistributionMethod::CPU_TAKE : StencilDistributionMethod::CPU_GIVE);
-    s.cacheDensityProfileCoefficients(true); s.cacheDomainGeometry(true);
-    s.R0(c.dirbc ? 0.1 : 1e-5); s.Rmax(1.3); s.nr_exp(c.nr_exp); s.ntheta_exp(c.ntheta_exp); s.anisotropic_factor(0); s.divideBy2(c.divide);
-    s.DirBC_Interior(c.dirbc);
-    s.FMG(c.fmg != 0); s.FMG_iterations(c.fmg_iters); s.FMG_cycle(static_cast<MultigridCycleType>(c.fmg_cycle));
-    s.extrapolation(static_cast<ExtrapolationType>(c.extrap)); s.maxLevels(c.maxLevels);
-    s.preSmoothingSteps(c.pre); s.postSmoothingSteps(c.post); s.multigridCycle(static_cast<MultigridCycleType>(c.cycle));
-    s.maxIterations(c.maxit); s.residualNormType(static_cast<ResidualNormType>(c.norm));
-    s.absoluteTolerance(c.tol ? c.atol : -1.0); s.relativeTolerance(c.tol ? c.rtol : -1.0);
-}
+#include "hsolver.h"
 
 static std::string render(GMGPolar& s, size_t from) {
     std::map<const void*, std::string> name;
@@ -157,7 +116,7 @@ static void stop_is_true(GMGPolar& s, const Config& c, size_t from, const char* 
         }
     }
     double nrm = norm_of(r0, c.norm, g0.numberOfNodes());
-    bool ok = (nrm <= c.atol * (1 + 1e-6) + 1e-300) || (norms.size() && nrm / norms[0] <= c.rtol * (1 + 1e-6));
+    bool ok = (c.use_atol && nrm <= c.atol * (1 + 1e-6) + 1e-300) || (c.use_rtol && norms.size() && nrm / norms[0] <= c.rtol * (1 + 1e-6));
     std::printf("PROP stop-is-true %s independent_norm=%.6e reported=%.6e initial=%.6e => %s\n", tag, nrm, norms.back(), norms[0],
                 ok ? "ok" : "FAIL solve() reported convergence but the independently recomputed residual does not meet the tolerance");
 }
@@ -215,6 +174,14 @@ int main(int argc, char** argv) {
                 c.extrap = modes[i % 3]; c.cycle = (i / 3) % 3; c.pre = 1 + (i % 2); c.post = 1 + ((i / 2) % 2);
                 c.problem = i % 3; c.dirbc = (i / 2) % 2; c.take = (i / 4) % 2; c.fmg = (i / 3) % 2; c.fmg_cycle = i % 3; c.fmg_iters = 1 + (i % 3);
                 c.norm = i % 3; c.exact = true; c.threads = 1 + (i % 4);
+                // tolerance set-ups: both (defaults of this harness), absolute only, relative only, absolute with a relative one that cannot
+                // fire first -- problems 0 and 2 have an initial residual norm well above 1, problem 1 below 1
+                switch ((i / 2) % 4) {
+                case 1: c.use_rtol = false; c.atol = 1e-6; break;
+                case 2: c.use_atol = false; c.rtol = 1e-7; break;
+                case 3: c.atol = 1e-7; c.rtol = 1e-15; break;
+                default: break;
+                }
                 cases.push_back(c);
             }
         }
@@ -232,10 +199,25 @@ int main(int argc, char** argv) {
         }
         int k = 0;
         for (auto& c : cases) {
+            std::printf("# tolerances use_atol=%d atol=%g use_rtol=%d rtol=%g\n", c.use_atol, c.atol, c.use_rtol, c.rtol);
             std::printf("# case %d nr_exp=%d ntheta_exp=%d maxLevels=%d cycle=%d extrap=%d pre=%d post=%d fmg=%d/%d/%d maxit=%d tol=%d norm=%d exact=%d dirbc=%d take=%d problem=%d\n",
                         k, c.nr_exp, c.ntheta_exp, c.maxLevels, c.cycle, c.extrap, c.pre, c.post, c.fmg, c.fmg_cycle, c.fmg_iters, c.maxit, c.tol, c.norm, c.exact, c.dirbc, c.take, c.problem);
             std::string tag = "case" + std::to_string(k++);
             run_trace_case(c, tag.c_str());
+        }
+        return 0;
+    }
+    if (mode == "converged") {
+        // K-converged: the private decision function itself, on a grid of (||r||, ||r||/||r_0||) values around the tolerances,
+        // for every combination of enabled / disabled tolerances
+        Config c; auto s = make_solver(c); apply_options(*s, c);
+        const double vals[] = {0.0, 1e-12, 9.9e-9, 1e-8, 1.1e-8, 1e-6, 0.5e-3, 1e-3, 2e-3, 0.9, 1.0, 37.0, 1e5};
+        const double tols[] = {-1.0, 1e-8, 1e-3};
+        for (double at : tols) for (double rt : tols) {
+            s->absoluteTolerance(at); s->relativeTolerance(rt);
+            for (double rn : vals) for (double reln : vals)
+                std::printf("CONV %s %s %s %s => %d\n", at < 0 ? "-" : hx(at).c_str(), rt < 0 ? "-" : hx(rt).c_str(), hx(rn).c_str(), hx(reln).c_str(),
+                            Access::converged(*s, rn, reln) ? 1 : 0);
         }
         return 0;
     }
